@@ -165,6 +165,27 @@ func OrderTaint(fn *ssa.Function, isUnorderedCall func(name string) bool, tainte
 			}
 			switch x := ref.(type) {
 			case *ssa.Phi:
+				// v enters the merge only along edges that leave a block in which (or after
+				// which) it has been sorted: the merged value is canonical along those edges
+				sorted := len(sortsOfV) > 0
+				for i, e := range x.Edges {
+					if e != v || i >= len(x.Block().Preds) {
+						continue
+					}
+					pred := x.Block().Preds[i]
+					okEdge := false
+					for _, so := range sortsOfV {
+						if so.Block() == pred || so.Block().Dominates(pred) {
+							okEdge = true
+						}
+					}
+					if !okEdge {
+						sorted = false
+					}
+				}
+				if sorted {
+					continue
+				}
 				add(x, why, &work)
 			case *ssa.Slice:
 				add(x, why, &work)
